@@ -202,6 +202,33 @@ def run_case(ctx, case):
         else:
             ok, why = ux.faces_match(g2, m)
         ctx.check("roundtrip_faces", ok, dict(sigm, why=(why or {}).get("why", ""), via_file=bool(case["via_file"] and wrote)), {"why": why, "materialised": done, "mesh": case["mesh"]})
+        # second generation: the grid that was read back is a grid like any other - encode IT (any format), write, read
+        if ok:
+            fmt2 = FORMATS[int(rng.integers(0, 3))]
+            if not (fmt2 == "exodus" and max(len(f) for f in m.faces) > 8):
+                sig2 = {"fmt": fmt2, "mixed": mixed, "generation": 2, "first_fmt": case["fmt"], "first_via_file": bool(case["via_file"] and wrote)}
+                path2 = os.path.join(_workdir(), "enc2_%d.nc" % int(rng.integers(0, 10**9)))
+                try:
+                    ds2 = encode(g2, fmt2, "to_xarray")
+                    try:
+                        ds2.to_netcdf(path2)
+                        ctx.check("writable", True)
+                        g3 = U.open_grid(path2 if rng.random() < 0.5 else ds2)
+                        if "exodus" in (fmt2, case["fmt"]):
+                            ok3, why3 = faces_multiset_match(g3, m)
+                        else:
+                            ok3, why3 = ux.faces_match(g3, m)
+                        ctx.check("roundtrip_faces", ok3, dict(sig2, why=(why3 or {}).get("why", "")), {"why": why3, "mesh": case["mesh"]})
+                    except Exception as e:
+                        ctx.check("writable", False, dict(sig2, exc=type(e).__name__), {"exc": repr(e)[:400], "mesh": case["mesh"]})
+                    ctx.observe("second_generation_" + case["fmt"] + ">" + fmt2)
+                except Exception as e:
+                    ctx.check("no_exception", False, dict(sig2, stage="encode_generation_2", exc=core.exc_sig(e)), {"exc": repr(e)[:300], "mesh": case["mesh"]})
+                finally:
+                    try:
+                        os.remove(path2)
+                    except OSError:
+                        pass
     except Exception as e:
         ctx.check("no_exception", False, dict(sigm, stage="reopen", exc=core.exc_sig(e)), {"exc": repr(e)[:300], "materialised": done, "mesh": case["mesh"]})
     finally:
